@@ -204,6 +204,35 @@ func runC13(c *Ctx, r *Report, tier string) {
 	sub := "idx(Command.commands(P0), phi{(phi↺ + 1) | 0})"
 	prefix := "(Command.Name(" + sub + ") + \".\")"
 	okOwn, okRec, okExact := false, false, false
+	// (Group.groupByName is looked through: "the command's own groups" is the value that is the command's group for
+	// the empty name and Find(name) among its subgroups otherwise — in that helper or written out in place)
+	for _, b := range c.blocks(cg) {
+		for _, in := range b.Instrs {
+			v, ok := in.(ssa.Value)
+			if !ok || in.Parent() != cg {
+				continue
+			}
+			if _, isPhi := in.(*ssa.Phi); !isPhi {
+				if _, isCall := in.(*ssa.Call); !isCall {
+					continue
+				}
+			}
+			set := map[string]bool{}
+			for _, o := range c.originsOf(v, in) {
+				set[o.Term] = true
+			}
+			if len(set) == 2 && set["Command.Group(P0)"] && set["call:(*Group).Find(Command.Group(P0), P1)"] {
+				okOwn = true
+			}
+		}
+	}
+	for _, ci := range c.instrsCtx(cg, c.isCallTo("(*Group).Find")) {
+		var rt string
+		c.within(ci.Frames, func() { rt = c.term(ci.In.(*ssa.Call).Call.Args[0]) })
+		if strings.HasPrefix(rt, "Command.Group("+sub) {
+			r.Fail("SECTION", cgn, "recursion into a subcommand", c.ipos(ci.In), "descends with Find on "+trunc(rt, 100)+": only the subcommand's own groups are searched, nested subcommands are never reached")
+		}
+	}
 	for _, s := range c.instrs(cg, func(in ssa.Instruction) bool { _, ok := in.(*ssa.Call); return ok }) {
 		t := c.term(s.(*ssa.Call))
 		switch {
